@@ -228,23 +228,42 @@ theorem sbb_assign_exact {self rhs : List Nat} {bw : Nat} (hs : WF self) (hr : W
   rw [hv] at e
   exact e
 
-/- FULL STATEMENT (false of the code in the release profile, see `add_assign_wider_rhs_silent`):
-   ∀ self rhs, boxedAddAssign self rhs = some r → val r = val self + val rhs -/
-/-- `a += &b` returns the exact sum or panics, PROVIDED `b` is not wider than `a`. -/
-theorem add_assign_spec_partial {self rhs : List Nat} (H_rhs_not_wider : rhs.length ≤ self.length) :
+/-- `a += &b` either panics or returns the exact sum at the receiver's precision — for EVERY pair of
+    precisions: a wider right-hand side is rejected by the (now unconditional) precision assertion. -/
+theorem add_assign_spec {self rhs : List Nat} :
     ∀ r, boxedAddAssign self rhs = some r → val r = val self + val rhs ∧ r.length = self.length := by
   intro r hr
-  have ⟨e, hl⟩ := adc_assign_exact (self := self) (rhs := rhs) 0 H_rhs_not_wider
-  unfold boxedAddAssign at hr
-  by_cases hc : (adcAssign self rhs 0).2 = 0
-  · simp only [hc, if_true, Option.some.injEq] at hr
-    subst hr; rw [hc] at e; exact ⟨by omega, hl⟩
-  · simp [hc] at hr
+  unfold boxedAddAssign assignPanics at hr
+  by_cases hw : self.length < rhs.length
+  · simp [hw] at hr
+  · have hle : rhs.length ≤ self.length := by omega
+    have ⟨e, hl⟩ := adc_assign_exact (self := self) (rhs := rhs) 0 hle
+    by_cases hc : (adcAssign self rhs 0).2 = 0
+    · simp only [hw, decide_false, Bool.false_eq_true, if_false, hc, if_true, Option.some.injEq] at hr
+      subst hr; rw [hc] at e; exact ⟨by omega, hl⟩
+    · simp [hw, hc] at hr
 
-/-- T04.7n (negative, witness): with a WIDER right-hand side the release-profile computation drops the
-    high limbs and reports no overflow: (64-bit 0) += (128-bit 2^64) gives 0. -/
-theorem add_assign_wider_rhs_silent :
-    boxedAddAssign [0] [0, 1] = some [0] ∧ val [0] ≠ val [0] + val [0, 1] := by decide
+/-- `a += &b` panics exactly when `b` is wider than `a` or the true sum does not fit `a`. -/
+theorem add_assign_panics_iff {self rhs : List Nat} (hs : WF self) :
+    boxedAddAssign self rhs = none ↔
+      (self.length < rhs.length ∨ ¬ val self + val rhs < B ^ self.length) := by
+  unfold boxedAddAssign assignPanics
+  by_cases hw : self.length < rhs.length
+  · simp [hw]
+  · have hle : rhs.length ≤ self.length := by omega
+    have ⟨e, hl⟩ := adc_assign_exact (self := self) (rhs := rhs) 0 hle
+    have hwf : WF (adcAssign self rhs 0).1 := uadc_WF _ _ _
+    have hr := val_lt hwf; rw [hl] at hr
+    have hp := Bpow_pos self.length
+    generalize B ^ self.length = K at *
+    by_cases hc : (adcAssign self rhs 0).2 = 0
+    · rw [hc] at e
+      have : val self + val rhs < K := by omega
+      simp [hw, hc, this]
+    · have h1 : 1 ≤ (adcAssign self rhs 0).2 := by omega
+      have : K * 1 ≤ K * (adcAssign self rhs 0).2 := Nat.mul_le_mul_left K h1
+      have : ¬ val self + val rhs < K := by omega
+      simp [hw, hc, this]
 
 /-! ### T04.8 `Checked<T>`: once none, always none -/
 
@@ -273,6 +292,6 @@ example : (uadc [WMAX, WMAX] [1, 0] 0) = ([0, 0], 1) := by decide
 example : (usbb [0, 0] [1, 0] 0) = ([WMAX, WMAX], WMAX) := by decide
 example : (carryingNeg [0, 0]) = ([0, 0], WMAX) := by decide
 example : badc [WMAX] [1, 5] 0 = ([0, 6], 0) ∧ bsbb [0] [1, 0] 0 = ([WMAX, WMAX], WMAX) := by decide
-example : boxedAddAssign [WMAX, 0] [1] = some [0, 1] := by decide
+example : boxedAddAssign [WMAX, 0] [1] = some [0, 1] ∧ boxedAddAssign [0] [0, 1] = none := by decide
 
 end CB.P04
